@@ -125,12 +125,32 @@ def _stores(node, name):
 
 
 def _pure_simple(v):
-    """an expression that can be re-evaluated at every use: names, attributes, subscripts, constants, arithmetic - no calls, no comprehensions"""
+    """an expression that can be re-evaluated at every use: names, attributes, subscripts, constants, arithmetic - no calls, no comprehensions,
+    no displays (a dict / list / set literal creates a new mutable object at every evaluation)"""
     for x in ast.walk(v):
         if isinstance(x, (ast.Call, ast.ListComp, ast.SetComp, ast.DictComp, ast.GeneratorExp, ast.Lambda, ast.Await, ast.Yield, ast.YieldFrom,
-                          ast.NamedExpr, ast.JoinedStr)):
+                          ast.NamedExpr, ast.JoinedStr, ast.Dict, ast.List, ast.Set)):
             return False
     return True
+
+
+def _used_as_object(fn, nm):
+    """is the local ever written through (`nm[i] = ..`, `nm.a = ..`, `nm += ..`) or used as a method receiver?  Then it names an object
+    (a view, a container) whose identity matters and it must not be replaced by copies of its defining expression."""
+    for x in ast.walk(fn):
+        if isinstance(x, (ast.Subscript, ast.Attribute)) and isinstance(x.ctx, (ast.Store, ast.Del)):
+            b = x.value
+            while isinstance(b, (ast.Subscript, ast.Attribute)):
+                b = b.value
+            if isinstance(b, ast.Name) and b.id == nm:
+                return True
+        if isinstance(x, ast.AugAssign) and isinstance(x.target, ast.Name) and x.target.id == nm:
+            return True
+        if isinstance(x, ast.Call) and isinstance(x.func, ast.Attribute) and isinstance(x.func.value, ast.Name) and x.func.value.id == nm:
+            return True
+        if isinstance(x, ast.keyword) and x.arg == "out" and isinstance(x.value, ast.Name) and x.value.id == nm:
+            return True
+    return False
 
 
 def _base_name(t):
@@ -217,7 +237,8 @@ def _inline_block(stmts, fn, extra):
                 changed |= _inline_block(h.body, fn, extra)
         if isinstance(st, ast.Assign) and len(st.targets) == 1 and isinstance(st.targets[0], ast.Name) and st.targets[0].id in extra:
             nm = st.targets[0].id
-            if _stores(fn, nm) == 1 and _loads(fn, nm) > 1 and _pure_simple(st.value) and _multi_inline(stmts, i, nm, st.value, fn):
+            if _stores(fn, nm) == 1 and _loads(fn, nm) > 1 and _pure_simple(st.value) and not _used_as_object(fn, nm) \
+                    and _multi_inline(stmts, i, nm, st.value, fn):
                 del stmts[i]
                 changed = True
                 continue
